@@ -22,6 +22,10 @@ type ckpt interface {
 type c08Case struct {
 	Spec   memsys.AssemblySpec `json:"spec"`
 	CutSel int                 `json:"cut_sel"`
+	// UsedTarget >= 0: the entities are loaded into an assembly that has itself
+	// run to UsedTarget/1000 of the event list (a non-fresh target, as in a
+	// rollback); -1: freshly built target.
+	UsedTarget int `json:"used_target"`
 }
 
 // stateOf returns the exported State field of a modeling.Component value.
@@ -115,7 +119,7 @@ func valueInterface(v reflect.Value) any {
 // component's own checkpoint into a rebuilt component.
 func TestC08States(t *testing.T) {
 	s := kit.Begin(t, "C08", "workload-states",
-		"C16 assemblies run to a cut drawn from their own event times; every library component (write-back and write-through caches, ROB, ideal controller, banked memory, DRAM, direct connections) and every port is saved with its own SaveCheckpoint and loaded into the corresponding entity of a freshly built identical assembly; the restored State must equal the saved one (reflect.DeepEqual, i.e. same concrete type, nil distinguished from empty) and re-saving must give identical bytes. Embedded buffers, pipelines and MSHR/directory state are part of those States. Non-trivial: at the cut some component state holds a non-empty buffer/pipeline/transaction list and some port holds a message")
+		"C16 assemblies run to a cut drawn from their own event times; every library component (write-back and write-through caches, ROB, ideal controller, banked memory, DRAM, direct connections) and every port is saved with its own SaveCheckpoint and loaded into the corresponding entity of an identical assembly that is either freshly built or has itself run to another point of the workload (a non-fresh target, as in a rollback); the restored State must equal the saved one (reflect.DeepEqual, i.e. same concrete type, nil distinguished from empty) and re-saving must give identical bytes. Embedded buffers, pipelines and MSHR/directory state are part of those States. Non-trivial: at the cut some component state holds a non-empty buffer/pipeline/transaction list and some port holds a message")
 	defer s.End()
 	run := func(f kit.Failer, c c08Case) {
 		var fail *memsys.Failure
@@ -138,7 +142,18 @@ func TestC08States(t *testing.T) {
 			// a second, identical build (same process: IDs restart, irrelevant here)
 			e2 := timing.NewSerialEngine()
 			reg2 := memsys.NewReg(e2)
-			memsys.Build(reg2, c.Spec)
+			a2 := memsys.Build(reg2, c.Spec)
+			if c.UsedTarget >= 0 {
+				// make the target non-fresh: run it to another point of the same workload
+				ids := timing.GetIDGeneratorNextID()
+				a2.Kick()
+				cut2 := uint64(0)
+				if n := len(rec.Events); n > 0 {
+					cut2 = rec.Events[c.UsedTarget*n/1001].Time
+				}
+				_ = e2.RunUntil(timing.VTimeInPicoSec(cut2))
+				timing.SetIDGeneratorNextID(ids)
+			}
 			pairs := func(x, y []any) {
 				for i := range x {
 					src, okS := x[i].(ckpt)
@@ -223,6 +238,9 @@ func TestC08States(t *testing.T) {
 		for _, l := range c.Spec.Levels {
 			classes = append(classes, "has:"+l.Kind)
 		}
+		if c.UsedTarget >= 0 {
+			classes = append(classes, "loaded-into-used-target")
+		}
 		s.Note(c, nonEmptyPorts > 0 && busyStates > 0, classes...)
 	}
 	var c c08Case
@@ -238,7 +256,11 @@ func TestC08States(t *testing.T) {
 	kit.SetChecks(300, 2000)
 	rapid.Check(t, func(rt *rapid.T) {
 		spec := memsys.GenAssembly(rt, memsys.GenOpts{MaxOps: 40, Bottoms: []string{"ideal", "banked", "dram"}})
-		run(rt, c08Case{Spec: spec, CutSel: rapid.IntRange(0, 1000).Draw(rt, "cutSel")})
+		c := c08Case{Spec: spec, CutSel: rapid.IntRange(0, 1000).Draw(rt, "cutSel"), UsedTarget: -1}
+		if rapid.Bool().Draw(rt, "usedTarget") {
+			c.UsedTarget = rapid.IntRange(0, 1000).Draw(rt, "targetCut")
+		}
+		run(rt, c)
 	})
 }
 
